@@ -217,7 +217,7 @@ def composite_cells():
             decl = "\n".join(defs) + "\n%s s%s = %s;\n" % (pre, suf, t_init(t))
             yield ("composite-declaration:%s:%s" % (cname, variant), "decl", model(gdecl=decl, assign="mo = 1"))
             for (path, _), (_, is_const) in zip(t_paths(t), t_paths(t0)):
-                for wid, wtext in (WRITES if engine.tier() == "thorough" else CWRITES):
+                for wid, wtext in WRITES:
                     for where in ("update", "function-body", "reference-parameter"):
                         if where == "update":
                             doc = model(gdecl=decl, assign=wtext.format(X="s" + path))
